@@ -136,23 +136,29 @@ def loop_table(b, head, blocks):
             base = noref(b.trace(b.val(it.args[0]), ('Deref::deref',)))
             over = 'properties' if base == V('arg', 3) else \
                 ('own-set' if base.kind == 'arg' and base.key == 1 else repr(base))
-    # result locals: _0 and whatever is copied into it inside the arm
-    rl = {0}
+    # result locals: _0 and whatever is copied (or negated) into it inside the arm; parity tracks `!`
+    rl = {0: False}
     grew = True
     while grew:
         grew = False
-        for (bb, si, st) in b.assigns(lambda st: not st['lhs']['p'] and st['lhs']['l'] in rl and
-                                      st['rv']['k'] == 'use' and st['rv']['op'].get('k') in ('copy', 'move') and
-                                      not st['rv']['op']['place']['p']):
-            l = st['rv']['op']['place']['l']
-            if bb in blocks and l not in rl:
-                rl.add(l)
+        for (bb, si, st) in b.assigns(lambda st: not st['lhs']['p'] and st['lhs']['l'] in rl):
+            rv = st['rv']
+            if bb not in blocks:
+                continue
+            src, neg = None, False
+            if rv['k'] == 'use' and rv['op'].get('k') in ('copy', 'move') and not rv['op']['place']['p']:
+                src = rv['op']['place']['l']
+            elif rv['k'] == 'un' and rv.get('op') == 'Not' and rv['a'].get('k') in ('copy', 'move') and \
+                    not rv['a']['place']['p']:
+                src, neg = rv['a']['place']['l'], True
+            if src is not None and src not in rl:
+                rl[src] = rl[st['lhs']['l']] != neg
                 grew = True
     stores = []
-    for l in rl:
+    for l, negated in rl.items():
         for (bb, si, val) in b.const_stores(l):
             if bb in blocks:
-                stores.append((bb, bool(val)))
+                stores.append((bb, bool(val) != negated))
 
     from taint import origins
 
